@@ -511,6 +511,12 @@ pub fn fire_rete_ul_rules_with_agenda(
                 if fired_flags.contains(&rule.name) {
                     return false;
                 }
+                // A no-loop rule stays fired until reset_fired_flags() removes its `<name>_fired` fact
+                if rule.no_loop
+                    && facts.get(&format!("{}_fired", rule.name)).map(String::as_str) == Some("true")
+                {
+                    return false;
+                }
                 // Check if rule matches current facts
                 evaluate_rete_ul_node(&rule.node, facts)
             })
@@ -528,6 +534,15 @@ pub fn fire_rete_ul_rules_with_agenda(
         // Fire all rules in agenda
         for &i in &agenda {
             let rule = &mut rules[i];
+            let fired_flag = format!("{}_fired", rule.name);
+
+            // Re-check no-loop: an earlier entry of this agenda may have fired the same rule name
+            // (or set its `<name>_fired` fact) after the agenda was built
+            let already_fired = fired_flags.contains(&rule.name)
+                || facts.get(&fired_flag).map(String::as_str) == Some("true");
+            if rule.no_loop && already_fired {
+                continue;
+            }
 
             // Execute rule action
             (rule.action)(facts);
@@ -536,7 +551,6 @@ pub fn fire_rete_ul_rules_with_agenda(
             fired_rules.push(rule.name.clone());
             fired_flags.insert(rule.name.clone());
 
-            let fired_flag = format!("{}_fired", rule.name);
             facts.insert(fired_flag, "true".to_string());
         }
 
